@@ -273,6 +273,13 @@ structure RdOut where
   exc : Option Exc
 deriving Repr, DecidableEq
 
+/-- l.648-649: `if exc_info is not None and packet.packet_name == "disconnect": exc_info = None`,
+as a log entry. -/
+def forgivenEv (pend : Option Exc) (d : Bool) : List TEv :=
+  match pend with
+  | some e => if d then [.forgiven e] else []
+  | none => []
+
 /-- `while num_packets < 50 and not self.interrupt:` (l.636-649).  An exhausted script is a silent
 server: `read_packet` times out. -/
 def readLoop (K : Code) : List RdRes → Nat → Option Exc → Conn → RdOut
@@ -289,12 +296,9 @@ def readLoop (K : Code) : List RdRes → Nat → Option Exc → Conn → RdOut
           match x.2.2 with
           | .escaped e => ⟨.read r :: x.1.map .cb, x.2.1, pend, rs, some e⟩
           | _ =>                                                     -- incl. `except IgnorePacket`
-            let fg : List TEv := match pend with
-              | some e => if d then [.forgiven e] else []
-              | none => []
             let pend' := if d then none else pend
             let k := readLoop K rs (np + 1) pend' x.2.1
-            ⟨.read r :: x.1.map .cb ++ fg ++ k.log, k.conn, k.pend, k.rest, k.exc⟩
+            ⟨.read r :: x.1.map .cb ++ forgivenEv pend d ++ k.log, k.conn, k.pend, k.rest, k.exc⟩
     else ⟨[], c, pend, rs, none⟩
 
 /-- How `_run` ended (within the script). -/
@@ -399,6 +403,22 @@ def xloopStep (hier : Hier) (inv : Exc) (x : XLoopSt) (h : XHandler) : XLoopSt :
         eff := x.eff ++ [⟨h.id, h.types, .raises e'⟩] }
   else { x with eff := x.eff ++ [h.erase] }
 
+/-- The final handler without its API calls. -/
+def XFinal.erase : XFinal → Final
+  | .none => .none
+  | .false => .false
+  | .fn _ b => .fn b
+
+/-- `if final_handler not in (None, False): final_handler(exc, exc_info)` (l.523-525): the
+connection afterwards and the final handler AS IT BEHAVED. -/
+def XFinal.run (inv : Exc) (fin : XFinal) (c : Conn) : Conn × Final :=
+  match fin with
+  | .none => (c, .none)
+  | .false => (c, .false)
+  | .fn acts b =>
+    let q := runActs inv acts c
+    (q.1, .fn (effBeh q.2 b))
+
 /-- Outcome of the final locked block. -/
 inductive Cleanup
   | notReached            -- early `return` (the reactor's handler returned a true value)
@@ -425,11 +445,69 @@ structure HxOut where
   effFin : Final
 deriving Repr, DecidableEq
 
+/-- The flag read by the final locked block: that of `new_networking_thread or
+networking_thread` (`none`: both are `None`). -/
+def Conn.cleanupFlag (c : Conn) : Option Bool :=
+  match c.new with
+  | some i => some i
+  | none => c.nt
+
+/-- What the reactor's handler raised, if anything. -/
+def rbehRaised : RBeh → Option Exc
+  | .raises e' => some e'
+  | _ => none
+
+/-- `_handle_exception` after the reactor's handler has returned a false value or raised
+(l.510-551); `r` is what it did, `c` the connection afterwards. -/
+def hxTail (hier : Hier) (inv : Exc) (hs : List XHandler) (fin : XFinal) (e info : Exc)
+    (r : RBeh) (c : Conn) : HxOut :=
+  -- except Exception as new_exc: exc, exc_info = new_exc, sys.exc_info()
+  let exc0 : Exc := (rbehRaised r).getD e
+  let info0 : Exc := (rbehRaised r).getD info
+  -- for handler, exc_types in self._exception_handlers: … else: caught = False
+  let x := hs.foldl (xloopStep hier inv)
+    { st := { exc := exc0, calls := [], broke := false }, info := info0, infos := [],
+      conn := c, eff := [] }
+  let caught := x.st.broke
+  -- if final_handler not in (None, False): try: final_handler(exc, exc_info)
+  --   except Exception as new_exc: exc, exc_info = new_exc, sys.exc_info()
+  let f := fin.run inv x.conn
+  let finCalls : List CallEv := match f.2 with
+    | .fn b => [.final x.st.exc b.raised]
+    | _ => []
+  let finInfos : List Exc := match f.2 with
+    | .fn _ => [x.info]
+    | _ => []
+  let exc2 : Exc := match f.2 with
+    | .fn (.raises e') => e'
+    | _ => x.st.exc
+  let info2 : Exc := match f.2 with
+    | .fn (.raises e') => e'
+    | _ => x.info
+  -- self.exception, self.exc_info = exc, exc_info
+  -- with self._write_lock:
+  --     if (self.new_networking_thread or self.networking_thread).interrupt:
+  --         self.disconnect(immediate=True)
+  let cl : Cleanup × Conn := match f.1.cleanupFlag with
+    | some true => (.disconnected, f.1.disconnect)
+    | some false => (.spared, f.1)
+    | none => (.failed, f.1)
+  -- if final_handler is None and not caught: raise exc_info[1]
+  { out := { trace := .reactor e (rbehRaised r) :: x.st.calls ++ finCalls,
+             caught := caught,
+             loopExc := some x.st.exc,
+             recorded := some exc2,
+             reraised := if f.2 = .none ∧ caught = false then some info2 else none,
+             swallowedByReactor := false },
+    infos := info :: x.infos ++ finInfos,
+    recordedInfo := some info2,
+    cleanup := cl.1, connAtCleanup := f.1, conn := cl.2,
+    effR := r, effHandlers := x.eff, effFin := f.2 }
+
 /-- `Connection._handle_exception(exc, exc_info)` (l.500-551); `info` is `exc_info[1]`. -/
 def hx (hier : Hier) (inv : Exc) (rh : XReactorH) (hs : List XHandler) (fin : XFinal)
     (e info : Exc) (c : Conn) : HxOut :=
   -- try: if self.reactor.handle_exception(exc, exc_info): return
-  -- except Exception as new_exc: exc, exc_info = new_exc, sys.exc_info()
   let r0 := runActs inv rh.acts c
   match effRBeh r0.2 rh.rbeh with
   | .retTrue =>
@@ -437,62 +515,8 @@ def hx (hier : Hier) (inv : Exc) (rh : XReactorH) (hs : List XHandler) (fin : XF
                reraised := none, swallowedByReactor := true },
       infos := [info], recordedInfo := none, cleanup := .notReached, connAtCleanup := r0.1,
       conn := r0.1, effR := .retTrue, effHandlers := hs.map XHandler.erase,
-      effFin := match fin with
-        | .none => .none
-        | .false => .false
-        | .fn _ b => .fn b }
-  | r =>
-    let rRaised : Option Exc := match r with | .raises e' => some e' | _ => none
-    let exc0 : Exc := rRaised.getD e
-    let info0 : Exc := rRaised.getD info
-    -- for handler, exc_types in self._exception_handlers: … else: caught = False
-    let x := hs.foldl (xloopStep hier inv)
-      { st := { exc := exc0, calls := [], broke := false }, info := info0, infos := [],
-        conn := r0.1, eff := [] }
-    let caught := x.st.broke
-    -- if final_handler not in (None, False): try: final_handler(exc, exc_info)
-    --   except Exception as new_exc: exc, exc_info = new_exc, sys.exc_info()
-    let f : Conn × Option Beh := match fin with
-      | .fn acts b => let q := runActs inv acts x.conn; (q.1, some (effBeh q.2 b))
-      | _ => (x.conn, none)
-    let finCalls : List CallEv := match f.2 with
-      | some b => [.final x.st.exc b.raised]
-      | none => []
-    let finInfos : List Exc := match f.2 with
-      | some _ => [x.info]
-      | none => []
-    let exc2 : Exc := match f.2 with
-      | some (.raises e') => e'
-      | _ => x.st.exc
-    let info2 : Exc := match f.2 with
-      | some (.raises e') => e'
-      | _ => x.info
-    -- self.exception, self.exc_info = exc, exc_info
-    -- with self._write_lock:
-    --     if (self.new_networking_thread or self.networking_thread).interrupt:
-    --         self.disconnect(immediate=True)
-    let tgt : Option Bool := match f.1.new with
-      | some i => some i
-      | none => f.1.nt
-    let cl : Cleanup × Conn := match tgt with
-      | some true => (.disconnected, f.1.disconnect)
-      | some false => (.spared, f.1)
-      | none => (.failed, f.1)
-    -- if final_handler is None and not caught: raise exc_info[1]
-    { out := { trace := .reactor e rRaised :: x.st.calls ++ finCalls,
-               caught := caught,
-               loopExc := some x.st.exc,
-               recorded := some exc2,
-               reraised := if fin = .none ∧ caught = false then some info2 else none,
-               swallowedByReactor := false },
-      infos := info :: x.infos ++ finInfos,
-      recordedInfo := some info2,
-      cleanup := cl.1, connAtCleanup := f.1, conn := cl.2,
-      effR := r, effHandlers := x.eff,
-      effFin := match fin, f.2 with
-        | .fn _ _, some b => .fn b
-        | .false, _ => .false
-        | _, _ => .none }
+      effFin := fin.erase }
+  | r => hxTail hier inv hs fin e info r r0.1
 
 /-! ## `NetworkingThread.run` -/
 
@@ -537,6 +561,15 @@ structure ThreadOut where
   reraised : Option Exc
 deriving Repr, DecidableEq
 
+/-- The log entries of `_handle_exception`: its calls, then the final locked block. -/
+def HxOut.events (h : HxOut) : List TEv :=
+  (h.out.trace.zip h.infos).map (fun p => TEv.call p.1 p.2) ++
+    match h.cleanup with
+    | .notReached => []
+    | .disconnected => [.cleanup true]
+    | .spared => [.cleanup false]
+    | .failed => [.cleanupFailed]
+
 /-- `except Exception as e: self.interrupt = True; self.connection._handle_exception(e,
 sys.exc_info())` followed by `finally: networking_thread = None` (l.606-611).
 `sys.exc_info()[1]` inside `except Exception as e` is `e`.  `self.reactor` is the reactor the thread
@@ -547,13 +580,7 @@ def excPath (K : Code) (S : Setup) (n0 : Nat) (log : List TEv) (rest : List RdRe
   let c1 := K.excPrologue c
   let rh := if c.conns = n0 then S.rh else S.rhNew
   let h := hx S.hier S.inv rh S.handlers S.fin e e c1
-  let calls : List TEv := (h.out.trace.zip h.infos).map fun p => .call p.1 p.2
-  let cl : List TEv := match h.cleanup with
-    | .notReached => []
-    | .disconnected => [.cleanup true]
-    | .spared => [.cleanup false]
-    | .failed => [.cleanupFailed]
-  { log := log ++ [.setIntr] ++ calls ++ cl ++ [.slotCleared],
+  { log := log ++ [.setIntr] ++ h.events ++ [.slotCleared],
     conn := { h.conn with nt := none },
     rest := rest, ended := true, entered := some (e, e), hx := some h,
     reraised := h.out.reraised }
